@@ -63,7 +63,8 @@ var Dev = map[string][]string{
 	"nan":    {"NaN", "nan", "Inf"},
 	"ovf":    {"18446744073709551616", "99999999999999999999", "36893488147419103232"},
 	"u64":    {"9223372036854775808", "18446744073709551615", "9223372036854775810"},
-	"max64":  {"9223372036854775807", "4611686018427387904", "2147483648"},
+	"max64":  {"9223372036854775807", "4611686018427387904", "1844674407370955162"},
+	"big32":  {"2147483648", "4294967296", "1000000000000"},
 	"huge":   {"1000", "65", "100000"},
 	"nonnum": {"abc", "two", "2x"},
 	"dec":    {"1.5", "2.5", "0.5"},
